@@ -23,10 +23,9 @@ theorem. -/
 theorem C07_orderings_side_condition :
     genOrders.enqSucc.hasRelease = true ∧ genOrders.deqSucc.hasAcquire = true := by decide
 
-/-- the exact orderings of the current source (strengthening them keeps the side condition) -/
-theorem C07_orderings_current :
-    genOrders = { enqLoad := .relaxed, enqSucc := .release, enqFail := .relaxed,
-                  deqLoad := .relaxed, deqSucc := .acquire, deqFail := .relaxed } := by decide
+/- (A theorem that pinned the *exact* orderings of the current source used to stand here. It made any
+strengthening of an ordering - which keeps every theorem of this file true - break an obligation, and is gone:
+what the argument needs is the side condition above, nothing else.) -/
 
 def relaxedEnq : Orders := { genOrders with enqSucc := .relaxed }
 def relaxedDeq : Orders := { genOrders with deqSucc := .relaxed }
